@@ -406,6 +406,13 @@ add("kc_vacant_insert_full_frame", "core_contracts::h_vacant_insert_full_frame::
     expect=PANIC(*FULL_PANIC), contracts=True, kind="contract", backend="kani-contract", attrs=["#[kani::proof_for_contract(crate::entry::VacantEntry::<u8, u8, {N}>::insert)]"],
     fn="VacantEntry::insert under requires(full && key absent) modifies() - nothing is written before the panic", shape="S_u8")
 
+# ------------------------------------------------------------------ the insertion-core contract that the Verus layer assumes
+for sh, K, V in (("u8", "u8", "u8"), ("id", "Key", "u8")):
+    for w, nm in ((0, "insert_ii"), (1, "insert_ii_for_full")):
+        add("kh_%s_post_%s" % (nm, sh), "core_contracts::h_insert_core_post::<%s, %s, {N}>(%d)" % (K, V, w), ["C01", "C05", "C12", "C18"],
+            N_(1, 2, 3) + (N_(9) if sh == "u8" else []), N_(1, 2, 3, 4) + (N_(9) if sh == "u8" else []), profile="both", unwind="N+2",
+            fn="Map::%s satisfies insert_post at slot level (the contract assumed by the Verus layer)" % nm, shape="S_" + sh)
+
 # ------------------------------------------------------------------ derived iterator methods (fold / nth / last / count) against next()
 ITERS = ("iter", "iter_mut", "keys", "values", "values_mut", "into_iter", "into_keys", "into_values", "drain", "set_iter", "set_into_iter", "set_drain")
 for wi, nm in enumerate(ITERS):
